@@ -208,6 +208,27 @@ theorem fmtRegExp_verbose_eq (cfg : Config) (h : VerbosePrint cfg) (e : Expr) :
   simp only [h.verb, h.color, hb, hi, cfgVerb, Bool.and_true, ite_true]
   try rfl
 
+/-- verbose settings without the condition on the anchors -/
+structure VerbosePrintNA (cfg : Config) : Prop where
+  rep : cfg.rep = false
+  sur : cfg.sur = false
+  color : cfg.color = false
+  verb : cfg.verb = true
+
+theorem fmtRegExp_verboseNA_eq (cfg : Config) (h : VerbosePrintNA cfg) (e : Expr) :
+    fmtRegExp cfg e = fmtRegExp (cfgVerb cfg.cap cfg.esc cfg.ci cfg.noStart cfg.noEnd) e := by
+  have hb : bodyText cfg e = bodyText (cfgVerb cfg.cap cfg.esc cfg.ci cfg.noStart cfg.noEnd) e :=
+    bodyText_congr (c1 := cfg) (c2 := cfgVerb cfg.cap cfg.esc cfg.ci cfg.noStart cfg.noEnd) ⟨rfl, rfl, h.sur, h.verb, h.color⟩ e
+  have hi : ∀ s, indentRegexp cfg s = indentRegexp (cfgVerb cfg.cap cfg.esc cfg.ci cfg.noStart cfg.noEnd) s := by
+    intro s
+    unfold indentRegexp
+    rw [indentLines_congr (c1 := cfg) (c2 := cfgVerb cfg.cap cfg.esc cfg.ci cfg.noStart cfg.noEnd) rfl]
+  unfold fmtRegExp
+  simp only [h.verb, h.color, hb, hi, cfgVerb, Bool.and_true, ite_true]
+  try rfl
+
+theorem VerbosePrint.toNA {cfg : Config} (h : VerbosePrint cfg) : VerbosePrintNA cfg := ⟨h.rep, h.sur, h.color, h.verb⟩
+
 /-- **verbose mode, end to end (C06, C01–C04, C07, C08 in verbose mode)** for every subset of the class options, with
 or without capturing groups, `-e`, `-i`, with at least one anchor: the verbose text — flag line, one lexeme group per
 line, indentation, `#`, blank and other white space escaped — is accepted by the model of `Regex::new` with the flags
@@ -268,24 +289,20 @@ theorem fmtRegExp_plainNA_eq (cfg : Config) (h : PlainPrintNA cfg) (e : Expr) :
       intro x; rw [R_append]; rfl
     exact hR _
 
-/-- **every anchor setting, including both anchors disabled (where `RegExp::from` runs its self-check and keeps one of
-three expressions): the returned pattern accepts no more than the test cases and no less than the non-empty ones.**
-For every subset of the class options, with or without capturing groups, `-e`, `-i`; all inputs.  (With both anchors
-disabled the fall-back expressions keep the empty test case, the first candidate loses it: known finding D1.) -/
-theorem classes_bounds_any_anchor (cfg : Config) (hp : PlainPrintNA cfg) (env : Env) (ws : List Str) (st : Stages)
+/-- whichever of the three expressions `RegExp::from` keeps: well-formed, and its string-level language lies between the
+non-empty generalised test cases and the generalised test cases -/
+theorem final_expr_bounds (cfg : Config) (hrep : cfg.rep = false) (env : Env) (ws : List Str) (st : Stages)
     (h : regExpFrom cfg env ws = .ok st) (hseg : ∀ w ∈ storedCases cfg env ws, SegOK env w)
-    (hne : ∃ t ∈ storedCases cfg env ws, t ≠ [])
-    (s : Str) (hs : ∀ c ∈ s, Scalar c) :
-    ∃ P, Spec.parse (fmtRegExp cfg st.finalAst) = some (⟨cfg.ci, false⟩, P) ∧
-      (Spec.fullMatch cfg.ci P s = true → ∃ t ∈ storedCases cfg env ws, atomsDen cfg.ci (t.map (convAtom cfg)) s) ∧
-      (∀ t ∈ storedCases cfg env ws, t ≠ [] → atomsDen cfg.ci (t.map (convAtom cfg)) s →
-        Spec.fullMatch cfg.ci P s = true) := by
+    (hne : ∃ t ∈ storedCases cfg env ws, t ≠ []) :
+    st.finalAst.WF ∧ ∀ (i : Bool) (s : Str),
+      (st.finalAst.strLang i s → ∃ t ∈ storedCases cfg env ws, atomsDen i (t.map (convAtom cfg)) s) ∧
+      (∀ t ∈ storedCases cfg env ws, t ≠ [] → atomsDen i (t.map (convAtom cfg)) s → st.finalAst.strLang i s) := by
   have hthree := from_final_three cfg env ws st h
   obtain ⟨h1, h2, h3, h4, h5⟩ := from_stages_shape cfg env ws st h
   change st.sorted = sortCases (storedCases cfg env ws) at h1
   generalize storedCases cfg env ws = ws1 at h1 hseg hne ⊢
   have hseg' : ∀ w ∈ sortCases ws1, SegOK env w := fun w hw => hseg w ((sortCases_mem' ws1 w).mp hw)
-  obtain ⟨f, hcl, hpl⟩ := clusters_atoms cfg hp.rep env (sortCases ws1) hseg'
+  obtain ⟨f, hcl, hpl⟩ := clusters_atoms cfg hrep env (sortCases ws1) hseg'
   rw [← h1, ← h2] at hcl
   generalize hcls : st.clusters = cls at *
   have hclP : ∀ cl ∈ cls, PlainBs cl := by
@@ -389,11 +406,10 @@ theorem classes_bounds_any_anchor (cfg : Config) (hp : PlainPrintNA cfg) (env : 
       obtain ⟨c, hc, rfl⟩ := List.mem_map.mp he
       exact hclP c hc
   obtain ⟨hwf, hsub, hsup⟩ := hcand
-  rw [fmtRegExp_plainNA_eq cfg hp]
-  obtain ⟨P, hparse, hmatch⟩ := printed_acceptsA cfg.ci cfg.cap cfg.esc cfg.noStart cfg.noEnd _ hwf s hs
-  refine ⟨P, hparse, ?_, ?_⟩
-  · intro hm
-    obtain ⟨w, hw, hd⟩ := hmatch.mp hm
+  refine ⟨hwf, ?_⟩
+  intro i s
+  refine ⟨?_, ?_⟩
+  · rintro ⟨w, hw, hd⟩
     have hwc := hsub w hw
     rw [hcl] at hwc
     obtain ⟨t, ht, rfl⟩ := List.mem_map.mp hwc
@@ -403,7 +419,6 @@ theorem classes_bounds_any_anchor (cfg : Config) (hp : PlainPrintNA cfg) (env : 
   · intro t htw htne hd
     have hmem : t ∈ sortCases ws1 := (sortCases_mem' ws1 t).mpr htw
     have hpt := hpl t hmem
-    apply hmatch.mpr
     refine ⟨f t, hsup (f t) (by rw [hcl, h1]; exact List.mem_map.mpr ⟨t, hmem, rfl⟩) ?_, by rw [hpt.2]; exact hd⟩
     intro hc
     have := hpt.2
@@ -411,6 +426,23 @@ theorem classes_bounds_any_anchor (cfg : Config) (hp : PlainPrintNA cfg) (env : 
     cases t with
     | nil => exact htne rfl
     | cons a r => simp [atomsOf] at this
+
+/-- **every anchor setting, including both anchors disabled (where `RegExp::from` runs its self-check and keeps one of
+three expressions): the returned pattern accepts no more than the test cases and no less than the non-empty ones.**
+For every subset of the class options, with or without capturing groups, `-e`, `-i`; all inputs.  (With both anchors
+disabled the fall-back expressions keep the empty test case, the first candidate loses it: known finding D1.) -/
+theorem classes_bounds_any_anchor (cfg : Config) (hp : PlainPrintNA cfg) (env : Env) (ws : List Str) (st : Stages)
+    (h : regExpFrom cfg env ws = .ok st) (hseg : ∀ w ∈ storedCases cfg env ws, SegOK env w)
+    (hne : ∃ t ∈ storedCases cfg env ws, t ≠ [])
+    (s : Str) (hs : ∀ c ∈ s, Scalar c) :
+    ∃ P, Spec.parse (fmtRegExp cfg st.finalAst) = some (⟨cfg.ci, false⟩, P) ∧
+      (Spec.fullMatch cfg.ci P s = true → ∃ t ∈ storedCases cfg env ws, atomsDen cfg.ci (t.map (convAtom cfg)) s) ∧
+      (∀ t ∈ storedCases cfg env ws, t ≠ [] → atomsDen cfg.ci (t.map (convAtom cfg)) s →
+        Spec.fullMatch cfg.ci P s = true) := by
+  obtain ⟨hwf, hb⟩ := final_expr_bounds cfg hp.rep env ws st h hseg hne
+  rw [fmtRegExp_plainNA_eq cfg hp]
+  obtain ⟨P, hparse, hmatch⟩ := printed_acceptsA cfg.ci cfg.cap cfg.esc cfg.noStart cfg.noEnd _ hwf s hs
+  exact ⟨P, hparse, fun hm => (hb cfg.ci s).1 (hmatch.mp hm), fun t ht hne' hd => hmatch.mpr ((hb cfg.ci s).2 t ht hne' hd)⟩
 
 /-- whatever expression `RegExp::from` keeps is well-formed (no `-r`, any other setting) -/
 theorem final_expr_wf (cfg : Config) (hrep : cfg.rep = false) (env : Env) (ws : List Str) (st : Stages)
@@ -614,13 +646,13 @@ theorem default_valid (cap : Bool) (env : Env) (ws : List Str) (st : Stages)
 /-- the same settings with verbose mode switched on / off -/
 def withVerb (cfg : Config) (b : Bool) : Config := { cfg with verb := b }
 
-/-- **C07 in verbose mode** (with an anchor in place): the returned verbose text is accepted under its `(?x)` / `(?ix)` flag
+/-- **C07 in verbose mode** (any anchors; whenever `RegExp::from` returns): the returned verbose text is accepted under its `(?x)` / `(?ix)` flag
 — for every non-empty list of test cases, every subset of the class options, capturing groups, `-e`, `-i` -/
-theorem classes_valid_verbose (cfg : Config) (hp : VerbosePrint cfg) (env : Env) (ws : List Str) (st : Stages)
+theorem classes_valid_verbose (cfg : Config) (hp : VerbosePrintNA cfg) (env : Env) (ws : List Str) (st : Stages)
     (h : regExpFrom cfg env ws = .ok st) (hseg : ∀ w ∈ storedCases cfg env ws, SegOK env w) (hws : ws ≠ []) :
     ∃ P, Spec.parse (fmtRegExp cfg st.finalAst) = some (⟨cfg.ci, true⟩, P) := by
   have hwf := final_expr_wf cfg hp.rep env ws st h hseg hws
-  rw [fmtRegExp_verbose_eq cfg hp]
+  rw [fmtRegExp_verboseNA_eq cfg hp]
   exact ⟨_, parse_verbose cfg.cap cfg.esc cfg.ci cfg.noStart cfg.noEnd _ hwf⟩
 
 /-- **C06: verbose mode is presentation only (language level, all inputs)** for every subset of the class options, with or
@@ -644,5 +676,21 @@ theorem verbose_same_language (cfg : Config) (hp : PlainPrintCI cfg) (env : Env)
   · exact absurd (hiff.mpr h') (by simp [h])
   · exact absurd (hiff.mp h) (by simp [h'])
   · rfl
+
+/-- **verbose mode with any anchors, including none**: whenever `RegExp::from` returns (with both anchors disabled it
+re-compiles the verbose candidate without its line breaks and can only fail there: C07), the verbose text it returns is
+accepted under its `(?x)` flag, matches in full nothing but generalised test cases and matches every non-empty one -/
+theorem classes_bounds_verbose (cfg : Config) (hp : VerbosePrintNA cfg) (env : Env) (ws : List Str) (st : Stages)
+    (h : regExpFrom cfg env ws = .ok st) (hseg : ∀ w ∈ storedCases cfg env ws, SegOK env w)
+    (hne : ∃ t ∈ storedCases cfg env ws, t ≠ [])
+    (s : Str) (hs : ∀ c ∈ s, Scalar c) :
+    ∃ P, Spec.parse (fmtRegExp cfg st.finalAst) = some (⟨cfg.ci, true⟩, P) ∧
+      (Spec.fullMatch cfg.ci P s = true → ∃ t ∈ storedCases cfg env ws, atomsDen cfg.ci (t.map (convAtom cfg)) s) ∧
+      (∀ t ∈ storedCases cfg env ws, t ≠ [] → atomsDen cfg.ci (t.map (convAtom cfg)) s →
+        Spec.fullMatch cfg.ci P s = true) := by
+  obtain ⟨hwf, hb⟩ := final_expr_bounds cfg hp.rep env ws st h hseg hne
+  rw [fmtRegExp_verboseNA_eq cfg hp]
+  obtain ⟨P, hparse, hmatch⟩ := printed_accepts_verbose cfg.ci cfg.cap cfg.esc cfg.noStart cfg.noEnd _ hwf s hs
+  exact ⟨P, hparse, fun hm => (hb cfg.ci s).1 (hmatch.mp hm), fun t ht hne' hd => hmatch.mpr ((hb cfg.ci s).2 t ht hne' hd)⟩
 
 end Grexv
